@@ -424,12 +424,14 @@ class BaseCollection(BaseDisplayRepr):
             recursive=False,
             typechecks=True,
         )
-        self_objects = check_format_input_obj(
-            self,
-            allow="sensors+sources+collections",
-            recursive=recursive,
-        )
         for child in remove_objects:
+            # look up the current members: an earlier argument may have taken
+            # this child out of the tree together with its collection
+            self_objects = check_format_input_obj(
+                self,
+                allow="sensors+sources+collections",
+                recursive=recursive,
+            )
             if child in self_objects:
                 rec_obj_remover(self, child)
                 child._parent = None
